@@ -68,7 +68,19 @@ class Check:
         """Run an exhaustive TLC check whose invariants/properties must hold; a violation here is a
         violation *of the specification itself* (design-level), reported as machinery failure since
         the specification is ours."""
-        r = self.tlc(module, cfg, label=label, **kw)
+        budget = kw.pop("budget_s", None)
+        if budget is not None:
+            # an extra, deeper exploration with a time budget: running out of budget is not a failure of anything - the run is
+            # recorded as incomplete and decides nothing
+            try:
+                r = self.tlc(module, cfg, label=label, timeout=budget, **kw)
+            except _tlc.TLCError as e:
+                if "timed out" not in str(e):
+                    raise
+                self.tlc_runs.append({"module": module, "label": label or module, "incomplete": "time budget of %d s exhausted" % budget})
+                return None
+        else:
+            r = self.tlc(module, cfg, label=label, **kw)
         if r.violated is not None:
             raise _tlc.TLCError("specification %s violates %s (design-level error)\n%s"
                                 % (module, r.violated, r.stdout[-3000:]))
